@@ -238,7 +238,7 @@ func (c *Ctx) Batch(jobs []Job, observe func(j Job, r *Run, fs []Finding)) {
 		}
 		c.Dims["latency:"+x.j.S.Lat.Class]++
 		if len(c.Samples) < 3 {
-			c.Samples = append(c.Samples, map[string]interface{}{"tag": x.j.Tag, "scenario": x.j.S, "exit": x.r.Exit, "signature": sig, "messages": labelsOf(x.r)})
+			c.Samples = append(c.Samples, map[string]interface{}{"tag": x.j.Tag, "scenario": sampleOf(x.j.S), "exit": x.r.Exit, "signature": sig, "messages": labelsOf(x.r)})
 		}
 		if observe != nil {
 			observe(x.j, x.r, x.fs)
@@ -266,6 +266,31 @@ func (c *Ctx) Batch(jobs []Job, observe func(j Job, r *Run, fs []Finding)) {
 			c.report(x.j, x.r, f)
 		}
 	}
+}
+
+// sampleOf is the scenario as it goes into the evidence file: whole for the conversation rigs, cut
+// down to the first history (and its first 40 operations) for the rigs that batch hundreds of
+// histories per process, so that the evidence stays a readable size.
+func sampleOf(s *scn.Scenario) interface{} {
+	hs, ok := s.Rig["histories"].([]interface{})
+	if !ok || len(hs) == 0 {
+		if cp, ok := s.Rig["corpus"].([]interface{}); ok && len(cp) > 0 {
+			t := cloneScn(s)
+			t.Rig["corpus"] = cp[:1]
+			t.Rig["note"] = fmt.Sprintf("sample shows 1 of %d corpus messages of this process", len(cp))
+			return t
+		}
+		return s
+	}
+	t := cloneScn(s)
+	h0, _ := t.Rig["histories"].([]interface{})[0].(map[string]interface{})
+	if ops, ok := h0["ops"].([]interface{}); ok && len(ops) > 40 {
+		h0["ops"] = ops[:40]
+		h0["note"] = fmt.Sprintf("sample shows the first 40 of %d operations", len(ops))
+	}
+	t.Rig["histories"] = []interface{}{h0}
+	t.Rig["note"] = fmt.Sprintf("sample shows 1 of %d histories of this process", len(hs))
+	return t
 }
 
 func labelsOf(r *Run) []string {
